@@ -6,6 +6,7 @@ import multilib as M
 
 PID = "C11"
 LEVEL = "proof"
+NEED_RELEASE = True
 COQ_TARGETS = ["Props/C11.vo"]
 THEOREMS = ["C11_rev_csum_spec", "C11_rev_csum_length", "C11_beta_chain_params", "C11_stick_simplex", "C11_gamma_simplex",
             "C11_dirichlet_simplex", "C11_method_switch"]
@@ -80,14 +81,31 @@ def correspond(ctx):
             stats["match" if c == 0 else "mismatch" if c == 1 else "unjudged"] += 1
             if c == 1:
                 mismatches.append({"type": ty, "alpha": list(a), "harness_line": r["line"][:400], "rust": r["out"][:300]})
+    # bulk simplex oracle on the real crate (NaN rates of 1e-5 are visible at 2e5 samples per alpha)
+    blines, bulk = [], 0
+    for ty in ("f64", "f32"):
+        for k in range(12 if tier == "quick" else 200):
+            a = alpha_vec(rng, ty)
+            blines.append("manyv dirichlet %s %s %x %d" % (ty, ",".join(S.f_bits(ty, v) for v in a), rng.u64(), 100000 if tier == "quick" else 1000000))
+    bouts = run_harness_guarded_parallel(ctx["binary_release"], blines, batch_timeout=900, line_timeout=300, chunk=2)
+    for line, o in zip(blines, bouts):
+        if not o.startswith("n="):
+            if not o.startswith("E:"):
+                oracle_failures.append({"property": PID, "class": "dirichlet-bulk", "harness_line": line[:300], "what": "bulk run returned " + o})
+            continue
+        f = dict(x.split("=", 1) for x in o.split(" "))
+        bulk += int(f["n"])
+        if int(f["bad"]) or int(f["nan"]):
+            oracle_failures.append({"property": PID, "class": "dirichlet", "harness_line": line[:300],
+                                    "what": "%s of %s seeded Dirichlet samples leave the simplex, %s contain NaN (first: %s)" % (f["bad"], f["n"], f["nan"], f["first"][:200])})
     return {
-        "evaluations": len(jobs), "distinct_nontrivial": len({(j[1], j[2], tuple(j[3][:3])) for j in jobs}),
+        "evaluations": len(jobs) + bulk, "distinct_nontrivial": len({(j[1], j[2], tuple(j[3][:3])) for j in jobs}),
         "rule": "alpha vectors of length 2..64 with entries in E (all <= 0.1, all > 0.1, mixed, at and around the 0.1 switch) x {f32,f64} x word "
                 "streams (random and single-word adversarial): real crate vs Coq model (words consumed, component enclosures), simplex predicate on the "
                 "real output, sample() vs sample_to_slice()",
         "samples": [res[0]["line"][:300], res[0]["out"][:200]],
         "mismatches": mismatches, "oracle_failures": oracle_failures,
-        "extra": {"model_vs_crate": stats, "method_counts": meth, "max_sum_deviation_ulp": maxsum},
+        "extra": {"model_vs_crate": stats, "method_counts": meth, "max_sum_deviation_ulp": maxsum, "bulk_simplex_samples": bulk},
     }
 
 
